@@ -20,23 +20,31 @@ let wrect_s (w : wrect) : string =
   | WRaw (x, y, w, h) -> Printf.sprintf "%d,%d,%d,%d,R" (iz x) (iz y) (iz w) (iz h)
   | WNewFB (w, h) -> Printf.sprintf "%d,%d,N" (iz w) (iz h)
   | WExt (r, s, w, h) -> Printf.sprintf "%d,%d,%d,%d,E" (iz r) (iz s) (iz w) (iz h)
+  | WResize (w, h) -> Printf.sprintf "%dx%d" (iz w) (iz h)
 
 let wire_s (msgs : (nat * wmsg) list) : string =
   String.concat "" (List.map (fun (c, (n, rects)) ->
-    Printf.sprintf " w%d:n=%d:[%s]" (int_of_nat c) (iz n) (String.concat ";" (List.map wrect_s rects))) msgs)
+    match rects with
+    | [WResize (w, h)] -> Printf.sprintf " w%d:resize=%dx%d" (int_of_nat c) (iz w) (iz h)
+    | _ -> Printf.sprintf " w%d:n=%d:[%s]" (int_of_nat c) (iz n) (String.concat ";" (List.map wrect_s rects))) msgs)
 
 let client_s (st : state) (i : int) (c : client) : string =
-  Printf.sprintf " | c%d M=[%s] C=[%s] d=%d,%d R=[%s] f=%s%s%s%s%s%s%s q=%d,%d sy=%d sz=%dx%d P=%d I=%s"
+  Printf.sprintf " | c%d M=[%s] C=[%s] d=%d,%d R=[%s] f=%s%s%s%s%s%s%s q=%d,%d sy=%d df=%d,%d sc=%s b=%d sz=%dx%d P=%d I=%s"
     i (rgn_s c.cM) (rgn_s c.cC) (iz c.cDX) (iz c.cDY) (rgn_s c.cR)
     (b2s c.cUseCopy) (b2s c.cShape) (b2s c.cCurChanged) (b2s c.cReady) (b2s c.cUseNewFB) (b2s c.cUseExt)
-    (b2s c.cNewFBPending) (iz c.cReqChange) (iz c.cLastErr) (iz c.cSliceY) (iz c.cPW) (iz c.cPH)
+    (b2s c.cNewFBPending) (iz c.cReqChange) (iz c.cLastErr) (iz c.cSliceY)
+    (iz c.cExt.xDefS) (iz c.cExt.xDefU)
+    (match c.cExt.xScaled with Some (w, h) -> Printf.sprintf "%dx%d" (iz w) (iz h) | None -> "-")
+    (iz c.cBpp) (iz c.cPW) (iz c.cPH)
     (pic_hash c.cPic) (b2s (inv_client_b st c))
 
 let observe (opname : string) (st : state) (msgs : (nat * wmsg) list) : unit =
   let b = Buffer.create 256 in
   Buffer.add_string b (Printf.sprintf "o %s |%s" opname (wire_s msgs));
   List.iteri (fun i c -> Buffer.add_string b (client_s st i c)) st.sClients;
-  Buffer.add_string b (Printf.sprintf " | F=%d S=%dx%dx%d" (pic_hash st.sFB) (iz st.sW) (iz st.sH) (iz st.sBpp));
+  Buffer.add_string b (Printf.sprintf " | F=%d S=%dx%dx%d T=%d X=[%s]" (pic_hash st.sFB) (iz st.sW) (iz st.sH) (iz st.sBpp)
+                         (iz st.sExt.xDefer)
+                         (String.concat ";" (List.map (fun (w, h) -> Printf.sprintf "%dx%d" (iz w) (iz h)) st.sExt.xChain)));
   print_endline (Buffer.contents b)
 
 let rec rects_of (l : string list) : rect list =
@@ -63,6 +71,10 @@ let parse_op (ws : string list) : op option =
   | ["send"; c] -> Some (OpSend (ni c))
   | ["newfb"; w; h; bpp; seed] -> Some (OpNewFB (zi w, zi h, zi bpp, zi seed))
   | ["setdesktopsize"; c; w; h; ns; hr] -> Some (OpSetDesktopSize (ni c, zi w, zi h, zi ns, zi hr))
+  | ["time"; s; u] -> Some (OpTime (zi s, zi u))
+  | ["defer"; ms] -> Some (OpDefer (zi ms))
+  | ["setpf"; c; b] -> Some (OpSetPixelFormat (ni c, zi b))
+  | ["setscale"; c; n] -> Some (OpSetScale (ni c, zi n))
   | _ -> None
 
 let () =
